@@ -92,3 +92,4 @@ package signed256
 //@   property C05
 //@   opt wide=272
 //@   ensures [value] !z.neg && leval(z.mag, 0, 4) == wide(v)
+//@   ensures [returns_the_receiver] result == z
